@@ -304,3 +304,33 @@ def gen_c09(rnd, n):
     # after a restart no client is connected: the generator's bookkeeping of connected clients is
     # stale, which only means requests by unconnected ids (the core does not mind)
     return hdr, out
+
+
+VER_TOP = 2000000000      # = VerTop of Core.tla = u64::MAX in the implementation (harness/src/util.rs)
+
+
+def gen_c02_boundary(rnd, n):
+    """short histories around the largest CAS version (imports put a key there; nothing else can)"""
+    out = []
+    for i in range(n):
+        k = rnd.choice([["cnt"], ["a", "b"], ["c", "d", "e"]])
+        start = VER_TOP - rnd.randint(0, 3)
+        tree = [{"p": k[:i], "e": {"k": "none", "v": "", "n": 0}} for i in range(len(k))] + [{"p": k, "e": {"k": "cas", "v": "v0", "n": start}}]
+        h = [{"op": "import", "tree": tree}, {"op": "cget", "key": k}]
+        cur = start
+        for j in range(rnd.randint(2, 7)):
+            r = rnd.random()
+            if r < 0.6:
+                h.append({"op": "cset", "key": k, "val": "w%d" % j, "ver": cur, "c": "c1"})
+                if cur < VER_TOP:
+                    cur += 1
+            elif r < 0.75:
+                h.append({"op": "cset", "key": k, "val": "x%d" % j, "ver": rnd.choice([0, 1, cur - 1, VER_TOP, VER_TOP - 1]), "c": "c2"})
+            elif r < 0.85:
+                h.append({"op": "set", "key": k, "val": "plain", "c": "c2"})
+            else:
+                h.append({"op": "cset", "key": ["fresh", str(j)], "val": "y", "ver": rnd.choice([VER_TOP, VER_TOP - 1, 1]), "c": "c2"})
+            h.append({"op": "cget", "key": k})
+        h.append({"op": "get", "key": k})
+        out.append(h)
+    return {"hdr": True, "meaning": {}, "proj": True}, out
